@@ -40,7 +40,7 @@ def unit_separate():
         for ename, ev in EV.items():
             ctx = Ctx()
             cur = list(group)
-            I = Interp(ctx, loop_specs={("separate_events", 0): OneStepLoop({"events_single_command_or_response": cur, "event": ev})})
+            I = Interp(ctx, loop_specs={("separate_events", 0): OneStepLoop({"events_single_command_or_response": cur, "event": ev}, kind="for")})
             g = run_sync(I.call(O.separate_events, ([],), {}))
             ys = []
             try:
